@@ -3,3 +3,4 @@ pub mod fields;
 pub mod format;
 pub mod instant;
 pub mod cron;
+pub mod tzif;
